@@ -3,6 +3,7 @@ known findings."""
 import json, os, sys, time, random
 
 VERIF = '/verif'
+OUT = os.environ.get('VERIF_OUT', VERIF)        # evidence and replays of this run (seed runs redirect them)
 KNOWN = os.path.join(VERIF, 'known_findings.json')
 LEVELS = ('exploration', 'fault_enumeration', 'model_checking', 'proof',
           'translation_validation', 'other')
@@ -47,7 +48,7 @@ class Check:
         self.assumptions = []
         self.notes = {}
         # replays of an earlier run of this property are stale
-        d = os.path.join(VERIF, 'replays', pid)
+        d = os.path.join(OUT, 'replays', pid)
         if os.path.isdir(d):
             for f in os.listdir(d):
                 if f.startswith('v') and f.endswith('.json'):
@@ -107,15 +108,15 @@ class Check:
         ev = dict(property_id=self.pid, tier=self.tier, seed=self.seed, level=self.level,
                   coverage=cov, assumptions=self.assumptions, wall_s=round(wall, 2),
                   violations=len(self.violations), known_findings_observed=self.known_hits)
-        os.makedirs(os.path.join(VERIF, 'evidence'), exist_ok=True)
-        with open(os.path.join(VERIF, 'evidence', self.pid + '.json'), 'w') as fh:
+        os.makedirs(os.path.join(OUT, 'evidence'), exist_ok=True)
+        with open(os.path.join(OUT, 'evidence', self.pid + '.json'), 'w') as fh:
             json.dump(ev, fh, indent=1, default=repr)
         for f in self.known:
             if self.known_hits.get(f['id']):
                 print('KNOWN-FINDING: property=%s %s [%s, observed %d times]' % (
                     self.pid, f['what'], f['id'], self.known_hits[f['id']]))
         if self.violations:
-            d = os.path.join(VERIF, 'replays', self.pid)
+            d = os.path.join(OUT, 'replays', self.pid)
             os.makedirs(d, exist_ok=True)
             shown = 0
             for i, (what, rep) in enumerate(self.violations):
